@@ -155,7 +155,9 @@ def bitlen_ref(s):
 def break_value(draw, s, v):
     """returns a copy of v with one int leaf out of range, or None"""
     if s[0] == "int":
-        return draw(st.sampled_from([s[1], s[1] + 1, -1]))
+        # outside [0, mod) - or not an integer at all: a float between two integers, a numeric string
+        # (a zero-width field, mod 1, never looks at its value's bits: non-integers are only drawn for mod >= 2)
+        return draw(st.sampled_from([s[1], s[1] + 1, -1] + ([-0.5, s[1] - 0.5, str(s[1] - 1), 0.25] if s[1] >= 2 else [-0.5])))
     if s[0] == "list":
         for i, x in enumerate(s[1]):
             w = break_value(draw, x, v[i])
@@ -227,9 +229,9 @@ def pack_case(case):
                 got = ns.rt.guarded(ns.rt.PrivVal(0))(lambda: pkr.pack(case["broken"]))()
             else:
                 got = pkr.pack(case["broken"])
-        except (ValueError, AssertionError):
+        except (ValueError, AssertionError, TypeError):
             return None
-        return "plain out-of-range value %r was packed without complaint%s (bits %r)" % (
+        return "plain out-of-range / non-integer value %r was packed without complaint%s (bits %r)" % (
             case["broken"], {"normal": "", "ignore": " while ignore_errors is set", "false-guard": " under a false guard"}[mode], plainify(ns, got))
     return None
 
